@@ -614,7 +614,7 @@ func c03Expand(cfg c03Cfg, level int, rng *rand.Rand) []c03Dims {
 		case 2:
 			sweep, sampled = []int{3}, append(rep(16, 3), 256)
 		default:
-			sweep, sampled, bigOneIn, bigs = []int{3, 16}, rep(256, 32), 2, 2
+			sweep, sampled, bigOneIn, bigs = []int{3, 16}, rep(256, 8), 4, 2
 		}
 	default:
 		fps = 2
